@@ -19,8 +19,9 @@ Not decided: byte-exactness per value (vint/zig-zag arithmetic, varint normalisa
 equality after round trip - numerical, needs evaluation.
 """
 import re
+from ..inline import inline_view
 from ..mir import AnchorLost
-from ..util import df_of, fn_short, in_set, backward_slice, operand_path, path_last, switch_on, switch_edges
+from ..util import norm_cmps, df_of, fn_short, in_set, backward_slice, operand_path, path_last, switch_on, switch_edges
 from ..shapes import Accept, SV, DV, NT, impl_method
 from .c17 import REF_SER, REF_DE, norm_self, ASYMMETRIC, head, fmt, N
 
@@ -207,7 +208,8 @@ def r3(ctx, facts):
     okv = False
     for bb, j in vals_site:
         st = df.state_before_stmt(bb, j) or {}
-        if any(k[0] == "bin" and k[1] in ("Ge", "Lt") and ("const", 0) in (k[2], k[3]) and v[0] == "in" and len(v[1]) == 1 and ((k[1] == "Ge") == (next(iter(v[1])) == 1)) for k, v in st.items()):
+        # `len < 0` known false, in whatever form the source spells it
+        if any(o == "Lt" and y == ("const", 0) and t == 0 for o, x, y, t in norm_cmps(st)):
             okv = True
     r.instance("read_value:value-iff-nonnegative", okv, "RawValue::Value must be produced only where len >= 0", rb.span)
     errs = [1 for bb in rb.live_blocks for s in rb.stmts(bb) if s[0] == "A" and s[2][0] == "agg" and s[2][1][0] == "adt" and s[2][1][2] == "InvalidValueLength"]
@@ -218,7 +220,7 @@ def r3(ctx, facts):
     okn = bool(nones)
     for bb, j in nones:
         st = odf.state_before_stmt(bb, j) or {}
-        if not any(k[0] == "bin" and k[1] == "Lt" and k[3] == ("const", 0) and in_set(v, {1}) for k, v in st.items()):
+        if not any(o == "Lt" and y == ("const", 0) and t == 1 for o, x, y, t in norm_cmps(st)):
             okn = False
     r.instance("read_bytes_opt:negative-is-null", okn, "read_bytes_opt must return None exactly for negative lengths", ob.span)
     mb = facts.one(r"^<scylla_cql_core::deserialize::value::MapIterator<'frame, 'metadata, K, V> as scylla_cql_core::deserialize::value::DeserializeValue<'frame, 'metadata>>::deserialize$")
@@ -400,7 +402,7 @@ def r6(ctx, facts):
 
 
 def check(ctx):
-    facts = ctx.facts("default")
+    facts = inline_view(ctx.facts("default"))
     A = Accept(facts)
     tabs = None
     try:
